@@ -1539,10 +1539,40 @@ def rule_subtractions(eng):
         inl = [(cf, cn, facts.inline_predicate(fb, cn)) for cf, cn in sites if cn.get("k") == "call"]
         if sites and all(e is not None for _, _, e in inl) and len(inl) == len(sites):
             for cf, cn, e in inl:
-                items += [(cf, x, cn) for x in walk(e)]
+                items += [(cf, x, cn, e) for x in walk(e)]
             continue
-        items += [(f, x, None) for x in f.nodes()]
-    for f, n, at in items:
+        items += [(f, x, None, None) for x in f.nodes()]
+
+    def left_context(root, target_id, fn):
+        """atoms established by the operands to the left of the target inside the same short-circuit expression
+        (`A && <target>`: A holds; `A || <target>`: A does not) — needed when the expression was inlined from a predicate"""
+        out = []
+
+        def go(x, acc):
+            x0 = strip(x) if isinstance(x, dict) else x
+            if not isinstance(x0, dict):
+                return False
+            if x0.get("id") == target_id:
+                out.extend(acc)
+                return True
+            if x0.get("k") == "bin" and x0.get("op") in ("&&", "||"):
+                if go(x0["l"], acc):
+                    return True
+                extra = conjuncts(x0["l"], x0["op"] == "&&", fn)
+                return go(x0["r"], acc + extra)
+            for k2, v in x0.items():
+                if k2 in facts.NONCHILD_KEYS:
+                    continue
+                if isinstance(v, dict) and go(v, acc):
+                    return True
+                if isinstance(v, list):
+                    for y in v:
+                        if isinstance(y, dict) and go(y, acc):
+                            return True
+            return False
+        go(root, [])
+        return out
+    for f, n, at, root in items:
         if True:
             if n.get("k") != "bin" or n.get("op") not in ("<", "<=", ">", ">=", "==", "!="):
                 continue
@@ -1560,6 +1590,8 @@ def rule_subtractions(eng):
                     acan = canon(a)
                     bv = const_value(b)
                     fs = eng.mf(f).at(at if at is not None else s)
+                    if root is not None:
+                        fs = list(fs) + left_context(root, n.get("id"), f)
                     # facts from earlier conjuncts in the same expression are path facts too (CFG splits &&)
                     ok = False
                     why = ""
